@@ -46,7 +46,8 @@ Print Assumptions C06_no_truncation_compressed.
    Line forms (Proofs/LegalLine.v): base_form l toks name args -- toks is a line of the R- / I- / S- / U-type tables or a branch / jal
    with a literal offset, mnemonic in any case, registers in ANY spelling (valid or not), the immediate a LITERAL (a token whose
    expression has no names: 2048, 0x800, -5, 1<<11), args = the operands as the encoder receives them;  c_form: the same for the 25
-   compressed mnemonics that take operands.  legal_operands32 / 16 name args: the operands as written are readable and inside the
+   compressed mnemonics that take operands (c.beqz / c.bnez / c.j / c.jal, like the branches and jal: the offset an INTEGER literal --
+   any other single token is a reference to a label, Props/C03.v C03_text_cb_lands / C03_text_cj_lands).  legal_operands32 / 16 name args: the operands as written are readable and inside the
    documented set (Spec/Operands.v + Spec/Legal.v only). *)
 From BB Require Import Model.Items Model.Passes Model.Lexer Model.Parser Proofs.Program Proofs.Examples Proofs.LegalCompress Proofs.LegalLine.
 Import ListNotations.
